@@ -596,7 +596,8 @@ def check_property(pid, tier, seed, reg, results_cache):
             'obligations': obligations,
             'discharged': discharged,
             'obligation_unit': 'one obligation = the full verification condition of one function body (postconditions, callee preconditions, bounds, overflow, loop invariants, termination) or one Kani harness',
-            'checker_cmd': '; '.join(sorted({r.get('cmd', '') for r in results if r.get('cmd')}))[:1500] or 'verus <unit>.rs --output-json --time',
+            # (a result reused from the cache carries the command of the run that produced it, possibly on a scratch tree with the identical unit text)
+            'checker_cmd': '; '.join(sorted({re.sub(r'build/scratch-\d+/', 'build/', r.get('cmd', '')) for r in results if r.get('cmd')}))[:1500] or 'verus <unit>.rs --output-json --time',
             'trusted_base': sorted(scan) + ['assumed contract (body not verified in any unit of this property): ' + a for a in assumed] + spec.get('trusted', []),
             'functions_under_contract': cone,
             'assumed_contracts': assumed,
